@@ -87,9 +87,23 @@ class Prop:
             return d
         base = decls(c.randint(0, 5), c.randint(0, 4))
         sub = decls(c.randint(0, 3), c.randint(0, 3))
+        # a second branch and a class with two bases (often without wildcards of its own)
+        other = decls(c.randint(0, 3), c.randint(0, 3))
+        # (the second base does not redeclare the root's catch-all: whether it or the
+        # root default inherited through the first base wins is a tie between bases
+        # that the statement does not settle)
+        other["prefix"].pop("", None)
+        both = decls(c.randint(0, 1), c.choice([0, 0, 0, 1]))
         kind = c.choice(["HasTraits", "HasTraits", "HasStrictTraits", "HasPrivateTraits"])
+        # re-entrancy: a trait_added listener that declares an instance trait for some
+        # names the moment they are first resolved ("declare on first use")
+        listener = {}
+        if c.random() < 0.3:
+            for n in c.sample(NAMES, c.randint(1, 3)):
+                if not n.endswith("_"):
+                    listener[n] = c.choice(POLICIES)
         ninst = c.randint(2, 4)
-        insts = [c.choice(["base", "sub"]) for _ in range(ninst)]
+        insts = [c.choice(["base", "sub", "both", "both", "other"]) for _ in range(ninst)]
         nops = c.choice([8, 16, 30, 60])
         focus = c.sample(NAMES, c.randint(3, 8))
         ops = []
@@ -111,7 +125,8 @@ class Prop:
                 op = {"k": "gc"}
             ops.append(op)
         return {"prop": ID, "seed": seed,
-                "config": {"kind": kind, "base": base, "sub": sub, "insts": insts},
+                "config": {"kind": kind, "base": base, "sub": sub, "other": other, "both": both,
+                           "insts": insts, "listener": listener},
                 "ops": ops}
 
     # ------------------------------------------------------------------ world
@@ -127,23 +142,49 @@ class Prop:
             for p, pol in sorted(d["prefix"].items()):
                 out[p + "_"] = make_trait(pol)
             return out
-        Base = type(T.HasTraits)("C13Base", (root,), ns(cfg["base"]))
+        listener = cfg.get("listener") or {}
+        base_ns = ns(cfg["base"])
+        if listener:
+            def _trait_added_changed(self, name):
+                pol = listener.get(name)
+                if pol is not None and name not in self._instance_traits():
+                    self.add_trait(name, make_trait(pol))
+            base_ns["_trait_added_changed"] = _trait_added_changed
+        Base = type(T.HasTraits)("C13Base", (root,), base_ns)
         Sub = type(T.HasTraits)("C13Sub", (Base,), ns(cfg["sub"]))
         Base.__qualname__, Sub.__qualname__ = "C13Base", "C13Sub"
         DYN.C13Base, DYN.C13Sub = Base, Sub
-        return {"base": Base, "sub": Sub}
+        out = {"base": Base, "sub": Sub}
+        if "other" in cfg:
+            other_ns = ns(cfg["other"])
+            if listener:
+                other_ns["_trait_added_changed"] = base_ns["_trait_added_changed"]
+            Other = type(T.HasTraits)("C13Other", (root,), other_ns)
+            Both = type(T.HasTraits)("C13Both", (Sub, Other), ns(cfg["both"]))
+            Other.__qualname__, Both.__qualname__ = "C13Other", "C13Both"
+            DYN.C13Other, DYN.C13Both = Other, Both
+            out.update({"other": Other, "both": Both})
+        return out
+
+    @staticmethod
+    def layers(cfg, which):
+        """Declarations along the method resolution order of the class."""
+        return {"base": ["base"], "sub": ["sub", "base"], "other": ["other"],
+                "both": ["both", "sub", "base", "other"]}[which] and [
+            cfg[k] for k in {"base": ["base"], "sub": ["sub", "base"], "other": ["other"],
+                             "both": ["both", "sub", "base", "other"]}[which]]
 
     @staticmethod
     def class_rule(cfg, which, name):
         """Class-level governing policy of ``name`` (the rule of the statement):
         class trait of that name (own or inherited), else the wildcard with the
         longest matching prefix, else the class default."""
-        layers = [cfg["sub"], cfg["base"]] if which == "sub" else [cfg["base"]]
+        layers = Prop.layers(cfg, which)
         for layer in layers:
             if name in layer["explicit"]:
                 return layer["explicit"][name], "explicit:" + name
         best = None
-        for layer in layers:
+        for layer in layers:                  # method resolution order: earlier wins ties
             for p, pol in layer["prefix"].items():
                 if name.startswith(p):
                     if best is None or len(p) > len(best[0]):
@@ -171,6 +212,8 @@ class Prop:
             insts.append({"obj": o, "which": which, "itraits": {}, "state": {},
                           "touched": set()})
         seen_by = {}
+        resolved = {}        # class -> names whose wildcard resolution is cached on the class
+        listener = cfg.get("listener") or {}
         outcomes = set()
         multi = 0
         for i, op in enumerate(trace["ops"]):
@@ -207,12 +250,21 @@ class Prop:
                 env.token("restart")
                 continue
             name = op["name"]
+            if k in ("get", "set", "del") and name not in rec["itraits"] \
+                    and not any(name in layer["explicit"] for layer in self.layers(cfg, which)) \
+                    and name not in resolved.setdefault(which, set()):
+                # first resolution of this name for this class: trait_added fires on this
+                # instance, and the listener may declare an instance trait right away
+                resolved[which].add(name)
+                if name in listener:
+                    rec["itraits"][name] = listener[name]
+                    env.probe("declared-on-first-use")
             if name in rec["itraits"]:
                 pol, why = rec["itraits"][name], "instance trait"
             else:
                 pol, why = self.class_rule(cfg, which, name)
             st = rec["state"].get(name, UNSET)
-            nmatch = sum(1 for layer in ([cfg["sub"], cfg["base"]] if which == "sub" else [cfg["base"]])
+            nmatch = sum(1 for layer in self.layers(cfg, which)
                          for p in layer["prefix"] if name.startswith(p))
             if k == "add_trait":
                 # (only names this instance never touched: a read materialises the
@@ -304,13 +356,15 @@ class Prop:
         env.nontrivial = multi > 0 and {"value", "AttributeError", "TraitError"} <= outcomes
 
     def cleanup(self):
-        for n in ("C13Base", "C13Sub"):
+        for n in ("C13Base", "C13Sub", "C13Other", "C13Both"):
             if hasattr(DYN, n):
                 delattr(DYN, n)
 
     def simplify_trace(self, trace):
         cfg = trace["config"]
-        for layer in ("base", "sub"):
+        for layer in ("base", "sub", "other", "both"):
+            if layer not in cfg:
+                continue
             for part in ("explicit", "prefix"):
                 for key in sorted(cfg[layer][part]):
                     d = {a: b for a, b in cfg[layer][part].items() if a != key}
